@@ -91,7 +91,7 @@ class Checker:
             node = self.model.nodes[cur]
             if node.id != cur:
                 raise LvsModelError(f"Malformed node id {cur}")
-            if par and node.parent != par:
+            if node.parent != par:
                 raise LvsModelError(f"Node {cur} has a wrong parent")
             for ve in node.v_edges:
                 if ve.dest is None or not ve.value:
